@@ -1,11 +1,11 @@
 SPECIFICATION Spec
 CONSTANTS
   CoreCfg = "one"
-  MaxStore = 5
+  MaxStore = 4
   MaxDead = 1
-  MaxRev = 1
-  Contract = TRUE
-  MaxBad = 0
-  MaxExtra = 0
+  MaxRev = 0
+  Contract = FALSE
+  MaxBad = 1
+  MaxExtra = 1
 INVARIANTS Sound LocalEmpty Sufficient OnlyVerified
 CHECK_DEADLOCK FALSE
